@@ -10,7 +10,7 @@ MANIFEST = {
     "note": "Small universe as in C17; reflogs are not in the model; PackRefs is not part of the transactional API and is skipped.",
 }
 HIDDEN = "TypeOK FailedChangesNothing ObjectsOnlyGrow FrameRefs FrameObjs ShallowReplaces EmitHist"
-CFG = """CONSTANTS Names <- MCNames Hashes <- MCHashes SymOK <- MCSymOK NoRemove <- MCNoRemove Objects <- MCObjects
+CFG = """CONSTANTS Names <- MCNames Hashes <- MCHashes SymOK <- MCSymOK NoRemove <- MCNoRemove Objects <- MCObjects PackSets <- MCPackSets
  IdxVals <- MCIdxVals ShallowSets <- MCShallowSets CfgVals <- MCCfgVals Inits <- MCInits MaxOps = %d EmitAll = TRUE
 INIT Init
 NEXT Next
